@@ -71,7 +71,7 @@ Qed.
 
 Lemma sub_wake s u : t_sub (tasks (wake_pump_closed s) u) = t_sub (tasks s u).
 Proof.
-  unfold wake_pump_closed. destruct (pump_owner s) as [p|]; [|reflexivity].
+  unfold wake_pump_closed. destruct (closed s); [|reflexivity]. destruct (pump_owner s) as [p|]; [|reflexivity].
   destruct (is_ppwait (t_pc (tasks s p))); [|reflexivity]. apply (sub_finish s p ResClosed u).
 Qed.
 Lemma sub_push s t f u : t_sub (tasks (push_item s t f) u) = t_sub (tasks s u).
